@@ -1,8 +1,12 @@
 pub mod c01;
 pub mod c02;
+pub mod c10;
 pub mod c13;
 pub mod c14;
 pub mod c15;
+pub mod c16;
+pub mod c17;
+pub mod custom_common;
 pub mod mpc_common;
 
 use crate::ctx::Ctx;
@@ -11,9 +15,12 @@ pub fn dispatch(ctx: &mut Ctx) -> bool {
     match ctx.prop.as_str() {
         "C01" => c01::run(ctx),
         "C02" => c02::run(ctx),
+        "C10" => c10::run(ctx),
         "C13" => c13::run(ctx),
         "C14" => c14::run(ctx),
         "C15" => c15::run(ctx),
+        "C16" => c16::run(ctx),
+        "C17" => c17::run(ctx),
         _ => return false,
     }
     true
